@@ -64,6 +64,17 @@ func genC10(t *rapid.T) c10Case {
 		}
 	}
 	c.Cfg.ReadSymlinks = rapid.Bool().Draw(t, "read_symlinks")
+	if files := treeFiles(c.Trees[0]); n == 1 && len(files) >= 2 && rapid.IntRange(0, 2).Draw(t, "listed_paths") == 0 {
+		// individually requested files (and sometimes a directory): limits and cancellation
+		// hold for them as for a walk
+		k := rapid.IntRange(2, 4).Draw(t, "n_listed")
+		for i := 0; i < k; i++ {
+			c.Cfg.PathsToExtract = append(c.Cfg.PathsToExtract, rapid.SampledFrom(files).Draw(t, "listed"))
+		}
+		if dirs := treeDirs(c.Trees[0]); len(dirs) > 0 && rapid.IntRange(0, 2).Draw(t, "listed_dir") == 0 {
+			c.Cfg.PathsToExtract = append(c.Cfg.PathsToExtract, rapid.SampledFrom(dirs).Draw(t, "listed_d"))
+		}
+	}
 	c.NStandalone = rapid.IntRange(0, 2).Draw(t, "n_standalone")
 	c.NDetectors = rapid.IntRange(0, 2).Draw(t, "n_detectors")
 	c.ReadDirFile = rapid.Bool().Draw(t, "read_dir_file")
@@ -292,6 +303,9 @@ func propC10(c c10Case) (ev.Outcome, error) {
 		}
 	}
 	o.Classes = append(o.Classes, "scenario", fmt.Sprintf("roots_%d", len(c.Trees)))
+	if len(c.Cfg.PathsToExtract) > 0 {
+		o.Classes = append(o.Classes, "scenario_listed_paths")
+	}
 	return o, nil
 }
 
